@@ -15,9 +15,7 @@
 #define C06_GET_PATH_CONTRACT_H
 
 static unsigned g_get_path_calls;
-#ifdef C06_CANON_CONTRACT
-static char *g_last_path;
-#endif
+
 
 int sqfs_tree_node_get_path(const sqfs_tree_node_t *node, char **out)
 {
@@ -30,6 +28,8 @@ int sqfs_tree_node_get_path(const sqfs_tree_node_t *node, char **out)
 	VERIF_ASSERT(k >= 0, "C06.get_path.pre");
 	++g_get_path_calls;
 	*out = NULL;
+	g_cur = -1;
+	g_cur_ptr = NULL;
 
 	/* the chain ends where the parent pointer is NULL (restore_fstree
 	 * cuts the tree at the unpack root that way) */
@@ -63,9 +63,8 @@ int sqfs_tree_node_get_path(const sqfs_tree_node_t *node, char **out)
 	}
 	str[o] = '\0';
 	*out = str;
-#ifdef C06_CANON_CONTRACT
-	g_last_path = str;
-#endif
+	g_cur = node_index(node);
+	g_cur_ptr = str;
 	return 0;
 }
 
@@ -82,9 +81,8 @@ int canonicalize_name(char *filename)
 {
 	size_t i;
 
-	VERIF_ASSERT(filename != NULL && filename == g_last_path,
+	VERIF_ASSERT(filename != NULL && filename == g_cur_ptr,
 		     "C06.canon.pre");
-	g_last_path = NULL;
 	for (i = 0; i + 1 < C06_PATHMAX; ++i) {
 		filename[i] = filename[i + 1];
 		if (filename[i] == '\0')
